@@ -136,6 +136,16 @@ VERIF_TARGET(c38_cmpct, init, 24, 700,
 {
     SetMockTime(1700000000);
     Gen g(s);
+    // the plan is read first, so that short buffers still yield adversarial cases (the transaction generator is byte-hungry)
+    const unsigned plan_nmut = s.chance(170) ? s.range<unsigned>(1, 2) : 0;
+    const unsigned plan_kind[2] = {s.range<unsigned>(0, 11), s.range<unsigned>(0, 11)};
+    const bool plan_bad_answer = s.chance(90);
+    const unsigned plan_answer_kind = s.range<unsigned>(0, 4);
+    const unsigned pool_mode = s.range<unsigned>(0, 3); // receiver mempool: 0 all genuine txs, 1/3 some, 2 none
+    const unsigned extra_mode = s.range<unsigned>(0, 3);
+    const unsigned pre_mode = s.range<unsigned>(0, 5);
+    const bool twins_first = s.boolean();
+    const unsigned plan_resident_twins = s.chance(90) ? s.range<unsigned>(1, 2) : 0; // twins of genuine txs that simply sit in the receiver's pools
 
     // ------------------------------------------------------------------ the genuine block
     unsigned n = 0; // non-coinbase txs
@@ -206,11 +216,11 @@ VERIF_TARGET(c38_cmpct, init, 24, 700,
         if (decoys.empty() || s.chance(100)) decoys.push_back(MakeTransactionRef(g.Tx(s.boolean())));
         return decoys[s.index(decoys.size())];
     };
-    unsigned nmut = s.chance(150) ? s.range<unsigned>(1, 2) : 0;
+    unsigned nmut = plan_nmut;
     bool dup_shortids = false, wrong_nonce = false, header_tweak = false, header_root_tweak = false;
     int index_fault = 0; // 0 none, 1 bound (== size+i+1), 2 16-bit overflow, 3 compactsize > 0xffff
     for (unsigned k = 0; k < nmut; ++k) {
-        unsigned kind = s.range<unsigned>(0, 11);
+        unsigned kind = plan_kind[k];
         switch (kind) {
         case 0: case 1: case 2: { // substitute one position
             size_t pos = s.chance(40) ? 0 : s.index(A.size());
@@ -254,10 +264,20 @@ VERIF_TARGET(c38_cmpct, init, 24, 700,
     if (header_root_tweak) { AH.hashMerkleRoot = TxidRoot(A); } // root of the attacker's list (differs from the genuine root iff the txid list differs)
     const uint64_t nonce = s.range<uint64_t>(0, 0xffffffff) * 0x9e3779b97f4a7c15ULL + 1;
 
+    // twins that are simply resident in the receiver's pools (e.g. a malleated copy arrived earlier), independent of what is announced
+    for (unsigned k = 0; k < plan_resident_twins && G.size() > 1; ++k) {
+        size_t pos = 1 + s.index(G.size() - 1);
+        if (twin_of.count(pos)) continue;
+        CTransactionRef tw = Twin(G[pos], s.range<unsigned>(0, 2));
+        if (tw->GetWitnessHash() == G[pos]->GetWitnessHash()) continue;
+        twin_of[pos] = tw;
+        twin_in_play = true;
+        st.cls("resident-twin");
+    }
     // prefilled subset of A
     std::vector<bool> pre(A.size(), false);
     {
-        unsigned mode = s.range<unsigned>(0, 5);
+        unsigned mode = pre_mode;
         for (size_t i = 0; i < A.size(); ++i) {
             if (i == 0) pre[i] = !s.chance(24);              // coinbase nearly always prefilled
             else if (mode == 0) pre[i] = false;
@@ -280,10 +300,7 @@ VERIF_TARGET(c38_cmpct, init, 24, 700,
         if (!pool_txids.insert(t->GetHash().ToUint256()).second) return; // a mempool holds one tx per txid
         TryAddToMempool(pool, TestMemPoolEntryHelper{}.Fee(1000).FromTx(t));
     };
-    const unsigned pool_mode = s.range<unsigned>(0, 3); // 0 all, 1 some, 2 none, 3 some
-    const unsigned extra_mode = s.range<unsigned>(0, 3);
     // twins / attacker txs first in some cases (then the genuine tx cannot enter the pool: same txid)
-    const bool twins_first = s.boolean();
     auto add_attacker_side = [&] {
         for (auto& [pos, tw] : twin_of) { if (s.chance(150)) to_pool(tw); if (s.chance(150)) extra.emplace_back(tw->GetWitnessHash(), tw); }
         for (auto& d : decoys) { if (s.chance(170)) to_pool(d); else if (s.chance(128)) extra.emplace_back(d->GetWitnessHash(), d); }
@@ -372,8 +389,8 @@ VERIF_TARGET(c38_cmpct, init, 24, 700,
     for (size_t i : missing_idx) answer.push_back(i < A.size() ? A[i] : G[0]);
     std::string ans_kind = "correct";
     bool bad_answer = false;
-    if (s.chance(90)) {
-        unsigned k = s.range<unsigned>(0, 4);
+    if (plan_bad_answer) {
+        unsigned k = plan_answer_kind;
         if (k == 0 && !answer.empty()) { answer.pop_back(); ans_kind = "short"; bad_answer = true; }
         else if (k == 1) { answer.push_back(decoys.empty() ? G[0] : decoys[0]); ans_kind = "long"; bad_answer = true; }
         else if (k == 2 && answer.size() >= 2) { std::swap(answer[0], answer[answer.size() - 1]); ans_kind = "reordered"; bad_answer = answer[0] != answer[answer.size() - 1]; }
